@@ -106,11 +106,17 @@ impl Assignment {
         let name = self.idents[0].name();
 
         if self.flags().contains(AssignmentFlag::modify()) {
-            let (ident, _) = user_data
+            let (ident, is_captured) = user_data
                 .get_dependency_flags_from_name_skip_n(name, skip)
                 .context(
                     "attempting to look up a variable that does not exist in any parent scope",
                 )?;
+
+            if !is_captured {
+                // `modify` writes into the variables a function captured; a variable of the
+                // function (or module) the statement is in is not among them
+                bail!("`{name}` belongs to the function this statement is in, and is assigned to without `modify`");
+            }
 
             return Ok(!ident.is_const());
         }
